@@ -270,32 +270,48 @@ impl E2Run for Dhcp {
             for f in state.frames.iter().filter(|f| f.protocol == ipv4 && f.bytes.len() > 28) {
                 let m = catching(|| DhcpMessage::from_bytes(f.bytes[28..].iter().copied()));
                 if let Ok(Ok(m)) = m {
-                    eprintln!("  t={} ev={} x{} {:#x}->{:?} {:?} your_ip={:?}", f.time_ms, f.event, f.copies, f.sender, f.destination, m.msg_type as u8, m.your_ip.to_bytes());
+                    eprintln!("  t={} ev={} x{} delays={:?} {:#x}->{:?} {:?} your_ip={:?}", f.time_ms, f.event, f.copies, f.delays,  f.sender, f.destination, m.msg_type as u8, m.your_ip.to_bytes());
                 }
             }
         }
         let mut holder: BTreeMap<[u8; 4], u64> = BTreeMap::new();
         let mut acked_to: BTreeMap<u64, Vec<[u8; 4]>> = BTreeMap::new();
         // the server's view: an Ack happens when it is sent, a Release when its
-        // (earliest copy) is delivered; at equal times the Release counts first
+        // (earliest copy) is delivered. The clock has millisecond resolution: when a Release
+        // reaches the server in the millisecond in which it sends an Ack for that address, the
+        // order is not observable, and the monitor takes the order that is legal if there is
+        // one: an Ack to the releasing client first (it answered a delayed duplicate of that
+        // client's Request), then the Release, then Acks to other clients.
         let mut server_events: Vec<(u64, u8, u64, [u8; 4], Option<u64>)> = vec![];
+        let mut released_at: std::collections::BTreeSet<(u64, [u8; 4], u64)> = Default::default();
         for f in state.frames.iter().filter(|f| f.protocol == ipv4 && f.bytes.len() > 28 && f.bytes[9] == 17 && f.copies > 0) {
             let Ok(Ok(m)) = catching(|| DhcpMessage::from_bytes(f.bytes[28..].iter().copied())) else {
                 continue;
             };
             let ip = m.your_ip.to_bytes();
             match m.msg_type {
-                MessageType::Ack => server_events.push((f.time_ms, 1, f.event, ip, f.destination)),
+                MessageType::Ack => server_events.push((f.time_ms, 2, f.event, ip, f.destination)),
                 MessageType::Release => {
                     let d = f.delays.iter().copied().min().unwrap_or(0);
-                    server_events.push((f.time_ms + d, 0, f.event, ip, None));
+                    server_events.push((f.time_ms + d, 1, f.event, ip, None));
+                    released_at.insert((f.time_ms + d, ip, f.sender));
                 }
                 _ => {}
             }
         }
+        for e in server_events.iter_mut() {
+            if e.1 == 2 {
+                if let Some(mac) = e.4 {
+                    if released_at.contains(&(e.0, e.3, mac)) {
+                        e.1 = 0;
+                        out.count("probe_release_and_ack_in_the_same_millisecond");
+                    }
+                }
+            }
+        }
         server_events.sort();
         for (_t, kind, _ev, ip, dest) in server_events {
-            if kind == 1 {
+            if kind != 1 {
                 let Some(mac) = dest else { continue };
                 out.count("acks_on_wire");
                 if let Some(h) = holder.get(&ip) {
